@@ -57,6 +57,29 @@ CLAIMED = {
         "dynamic symbolic execution of the real Python code (vx) + z3 LRA/NRA+UF, path-witness replay",
         "DESIGN.md section 4 C15",
     ),
+    "C10": (
+        "model_checking",
+        "ParameterValues boundaries, ModelFittingDataTree._set_bound/get_bounds/convert_to_parameters/update_processor and "
+        "Processor.set/get executed with symbolic boundary pairs and symbolic decision vectors (1-D and 2-D) for every layout of "
+        "1..3 variables (scalar / vector of 1..2 (3) placeholders, shared or per-component boundaries, linear or logarithmic): "
+        "bound vectors, value = dv or 10**dv by owner, inside [lo,hi], slices applied to the right keys, reported == applied.",
+        "10**x/log10 are uninterpreted functions constrained to be mutually inverse and monotone (real arithmetic); pygmo keeping "
+        "candidates inside the box and xarray packaging of champions are outside.",
+        "dynamic symbolic execution of the real Python code (vx) + z3 LRA+UF",
+        "DESIGN.md section 4 C10",
+    ),
+    "C11": (
+        "model_checking",
+        "Fit ranges: to_fit_range/FitRange*.check/check_fit_ranges with unbounded symbolic integer bounds and target sizes (accepted => "
+        "equal extents and inside the target; valid pairs not refused). Formulas: the three fitness functions (numba bypassed) against "
+        "their textbook definitions on symbolic 2x2 / 1x3 arrays. Accumulation: real ModelFittingDataTree.__init__ (target slicing, "
+        "weights) and fitness() for 1..3 (processor, target) pairs with symbolic frames: sum over pairs of f(sim[result range], "
+        "target[target range], weights), each pair with its own processor, parameter applied.",
+        "run_pipeline and xarray.DataArray are recording stand-ins in the accumulation harness; champion re-simulation / monotone "
+        "champion fitness depend on pygmo and are outside; NaN handling outside (real arithmetic).",
+        "dynamic symbolic execution of the real Python code (vx) + z3 LIA/NRA, path-witness replay",
+        "DESIGN.md section 4 C11",
+    ),
 }
 
 NOT_APPLICABLE = {
